@@ -42,6 +42,9 @@ type Server struct {
 	closed     bool
 	wg         sync.WaitGroup
 	pongs      chan struct{}
+	// MaxPayload is advertised in INFO (0 = 1 MiB); the client library refuses
+	// larger payloads itself. Set it before the client connects.
+	MaxPayload int
 }
 
 // NewServer starts listening on a loopback port.
@@ -90,7 +93,11 @@ func (s *Server) accept() {
 		s.conn = c
 		s.w = bufio.NewWriter(c)
 		s.subs = map[string]string{}
-		s.w.WriteString(`INFO {"server_id":"FAKE","server_name":"fake","version":"2.6.6","proto":1,"headers":true,"max_payload":1048576}` + "\r\n")
+		mp := s.MaxPayload
+		if mp <= 0 {
+			mp = 1048576
+		}
+		s.w.WriteString(fmt.Sprintf(`INFO {"server_id":"FAKE","server_name":"fake","version":"2.6.6","proto":1,"headers":true,"max_payload":%d}`, mp) + "\r\n")
 		s.w.Flush()
 		s.mu.Unlock()
 		s.wg.Add(1)
